@@ -192,6 +192,63 @@ class ConstFold(ast.NodeTransformer):
         return node
 
 
+class NextToLoop(ast.NodeTransformer):
+    """`T = next((E for v in IT if C), D)` (one generator, D a constant or a name, v a plain name the function uses nowhere else)  ->
+    `T = D; for v in IT: if C: T = E; break` -- the first-match search as the loop it abbreviates."""
+
+    def visit_FunctionDef(self, fn):
+        self.generic_visit(fn)
+        counts = {}
+        for n in ast.walk(fn):
+            if isinstance(n, ast.Name):
+                counts[n.id] = counts.get(n.id, 0) + 1
+            elif isinstance(n, ast.arg):
+                counts[n.arg] = counts.get(n.arg, 0) + 1
+
+        def lower(st):
+            if not (isinstance(st, ast.Assign) and len(st.targets) == 1 and isinstance(st.targets[0], ast.Name)):
+                return [st]
+            c = st.value
+            if not (isinstance(c, ast.Call) and isinstance(c.func, ast.Name) and c.func.id == 'next' and len(c.args) == 2 and not c.keywords and
+                    isinstance(c.args[0], ast.GeneratorExp) and len(c.args[0].generators) == 1 and isinstance(c.args[1], (ast.Constant, ast.Name))):
+                return [st]
+            ge, gen, T = c.args[0], c.args[0].generators[0], st.targets[0].id
+            if gen.is_async or not isinstance(gen.target, ast.Name):
+                return [st]
+            v = gen.target.id
+            inside = sum(1 for n in ast.walk(ge) if isinstance(n, ast.Name) and n.id == v)
+            if counts.get(v, 0) != inside or v == T or any(isinstance(n, ast.Name) and n.id == T for n in ast.walk(ge)):
+                return [st]
+            if any(isinstance(n, (ast.Lambda, ast.GeneratorExp, ast.ListComp, ast.SetComp, ast.DictComp, ast.NamedExpr, ast.Yield, ast.Await))
+                   for x in [ge.elt] + gen.ifs + [gen.iter] for n in ast.walk(x)):
+                return [st]
+            init = ast.copy_location(ast.Assign(targets=[ast.Name(id=T, ctx=ast.Store())], value=c.args[1]), st)
+            hit = [ast.copy_location(ast.Assign(targets=[ast.Name(id=T, ctx=ast.Store())], value=ge.elt), st), ast.copy_location(ast.Break(), st)]
+            test = gen.ifs[0] if len(gen.ifs) == 1 else ast.BoolOp(op=ast.And(), values=list(gen.ifs)) if gen.ifs else None
+            body = [ast.copy_location(ast.If(test=test, body=hit, orelse=[]), st)] if test is not None else hit
+            loop = ast.copy_location(ast.For(target=ast.Name(id=v, ctx=ast.Store()), iter=gen.iter, body=body, orelse=[], type_comment=None), st)
+            return [init, ast.fix_missing_locations(loop)]
+
+        def rec(node):
+            for fld in ('body', 'orelse', 'finalbody'):
+                blk = getattr(node, fld, None)
+                if isinstance(blk, list) and blk and isinstance(blk[0], ast.stmt):
+                    out = []
+                    for st in blk:
+                        if isinstance(st, (ast.FunctionDef, ast.AsyncFunctionDef, ast.ClassDef)):
+                            out.append(st)
+                            continue
+                        rec(st)
+                        out.extend(lower(st))
+                    setattr(node, fld, out)
+            for h in getattr(node, 'handlers', []) or []:
+                rec(h)
+        rec(fn)
+        return fn
+
+    visit_AsyncFunctionDef = visit_FunctionDef
+
+
 class SplitTupleAssign(ast.NodeTransformer):
     """`a, b = (E1, E2)` with distinct plain names on the left, none of them read on the right (nor in a nested function), outside of
     try blocks  ->  `a = E1; b = E2`.  The pair form and the two statement form bind the same values in the same evaluation order."""
@@ -1213,6 +1270,7 @@ def simplify_tree(tree):
     tree = ToAug().visit(tree)
     tree = CounterInduction().visit(tree)
     tree = FlagThread().visit(tree)
+    tree = NextToLoop().visit(tree)
     tree = SplitTupleAssign().visit(tree)
     tree = CopyProp().visit(tree)
     tree = JoinNestedIf().visit(tree)
